@@ -229,7 +229,7 @@ impl Bind {
 }
 
 /// Split "a[b][c]d" into the bracketed pieces.
-fn brackets(s: &str) -> Vec<String> {
+pub fn brackets(s: &str) -> Vec<String> {
     let mut out = vec![];
     let mut cur: Option<String> = None;
     for c in s.chars() {
@@ -243,7 +243,7 @@ fn brackets(s: &str) -> Vec<String> {
     out
 }
 
-fn reads(binds: &[Bind]) -> String {
+pub fn reads(binds: &[Bind]) -> String {
     let mut s = String::new();
     for b in binds {
         s.push('[');
@@ -253,13 +253,16 @@ fn reads(binds: &[Bind]) -> String {
     s
 }
 
-struct Program {
-    src: String,
-    expect: Vec<String>,
+pub struct Program {
+    pub src: String,
+    /// the same text cut at operation boundaries (setup | op | op | ... | probe pieces)
+    pub parts: Vec<String>,
+    pub expect: Vec<String>,
 }
 
 /// Build the program for a path of op indices through the LTS from its initial state.
-fn build_program(lts: &Lts, binds: &[Bind], path_ops: &[usize]) -> Option<Program> {
+pub fn build_program(lts: &Lts, binds: &[Bind], path_ops: &[usize]) -> Option<Program> {
+    let mut parts: Vec<String> = vec![];
     let mut src = String::new();
     let mut done: Vec<String> = vec![];
     for b in binds {
@@ -271,6 +274,7 @@ fn build_program(lts: &Lts, binds: &[Bind], path_ops: &[usize]) -> Option<Progra
     }
     let mut st = lts.init;
     for oi in path_ops {
+        parts.push(std::mem::take(&mut src));
         let o = &lts.ops[*oi];
         let (t, _) = lts.edges[st][*oi].as_ref()?;
         match o["k"].as_str().unwrap() {
@@ -289,6 +293,7 @@ fn build_program(lts: &Lts, binds: &[Bind], path_ops: &[usize]) -> Option<Progra
         st = *t as usize;
     }
     // probe suffix
+    parts.push(std::mem::take(&mut src));
     let mut expect = vec![];
     let state = &lts.states[st];
     src.push_str(&reads(binds));
@@ -297,16 +302,46 @@ fn build_program(lts: &Lts, binds: &[Bind], path_ops: &[usize]) -> Option<Progra
     }
     let snaps = state["snaps"].as_array().unwrap();
     for snap in snaps.iter().rev() {
+        parts.push(std::mem::take(&mut src));
         src.push('}');
         src.push_str(&reads(binds));
         for (i, b) in binds.iter().enumerate() {
             expect.push(b.render(snap[i].as_u64().unwrap() as usize));
         }
     }
-    Some(Program { src, expect })
+    parts.push(src);
+    Some(Program { src: parts.concat(), parts, expect })
 }
 
-fn run_program(src: &str) -> (Vec<String>, String) {
+/// Run a program given as segments with a checkpoint (serialise + deserialise in the given format)
+/// between consecutive segments.  Each segment but the last ends with a newline: the checkpoint is
+/// taken when the pending input is exhausted.
+pub fn run_segments(segs: &[String], fmts: &[vmh::Format]) -> (Vec<String>, String) {
+    let mut vm = vmh::new_vm(&[], &[]);
+    let mut text = String::new();
+    for (i, seg) in segs.iter().enumerate() {
+        if i > 0 {
+            let fmt = fmts[(i - 1) % fmts.len()];
+            let r = crate::util::catch(|| vmh::checkpoint(&vm, fmt, &[], &[]));
+            match r {
+                Ok(Ok(v)) => vm = v,
+                Ok(Err(e)) => return (brackets(&text), format!("checkpoint failed ({fmt:?}): {e}")),
+                Err((site, msg)) => return (brackets(&text), format!("checkpoint panicked ({fmt:?}) at {site}: {msg}")),
+            }
+        }
+        let r = vmh::run_src::<vmh::H>(&mut vm, "main.tex", seg, 200_000);
+        text.push_str(&vmh::render(&r.toks));
+        match r.outcome {
+            vmh::Outcome::Ok => {}
+            vmh::Outcome::Err { title, .. } => return (brackets(&text), format!("error: {title}")),
+            vmh::Outcome::Panic { site, msg } => return (brackets(&text), format!("panic at {site}: {msg}")),
+            vmh::Outcome::Budget => return (brackets(&text), "budget".to_string()),
+        }
+    }
+    (brackets(&text), "ok".to_string())
+}
+
+pub fn run_program(src: &str) -> (Vec<String>, String) {
     let mut vm = vmh::new_vm(&[], &[]);
     let r = vmh::run_src::<vmh::H>(&mut vm, "main.tex", src, 200_000);
     let text = vmh::render(&r.toks);
@@ -319,7 +354,7 @@ fn run_program(src: &str) -> (Vec<String>, String) {
     (brackets(&text), outcome)
 }
 
-fn binding_list(all: bool) -> Vec<(K, K)> {
+pub fn binding_list(all: bool) -> Vec<(K, K)> {
     let mut v = vec![];
     for a in MAP_KINDS {
         for b in VAR_KINDS {
@@ -486,9 +521,13 @@ pub fn trace(args: &Args) -> i32 {
     let seed: u64 = args.num("seed", 1);
     let n: usize = args.num("n", 50);
     let len: usize = args.num("len", 60);
+    let with_checkpoints = args.str("checkpoints").is_some();
+    let fmts = [vmh::Format::Json, vmh::Format::MessagePack, vmh::Format::Bincode];
     let mut out = Out::new(args.str("out"));
     let mut rng = Rng::new(seed);
     for t in 0..n {
+        let mut segs: Vec<String> = vec![];
+        let mut seg_fmts: Vec<vmh::Format> = vec![];
         // keys 1,2 map kinds; 3,4,5 var kinds; 6 = \globaldefs
         let mut binds: Vec<Bind> = vec![];
         let mut used: Vec<K> = vec![];
@@ -532,7 +571,13 @@ pub fn trace(args: &Args) -> i32 {
         let _ = &mut cur_for_advance;
         for _ in 0..len {
             let r = rng.below(20);
-            if r < open_bias && depth < 10 {
+            if with_checkpoints && rng.chance(1, 7) {
+                src.push('\n');
+                segs.push(std::mem::take(&mut src));
+                let f = fmts[rng.below(3) as usize];
+                seg_fmts.push(f);
+                ops.push(json!({"ev":"checkpoint","fmt":format!("{f:?}")}));
+            } else if r < open_bias && depth < 10 {
                 src.push('{');
                 depth += 1;
                 ops.push(json!({"ev":"begin"}));
@@ -552,14 +597,20 @@ pub fn trace(args: &Args) -> i32 {
                 if b.is_map() && x == 0 {
                     x = 1 + rng.below(2) as usize;
                 }
-                let form = *rng.pick(&["no", "no", "no", "global", "global", "gdef"]);
+                let form = if args.str("nogdef").is_some() {
+                    *rng.pick(&["no", "no", "global"])
+                } else {
+                    *rng.pick(&["no", "no", "no", "global", "global", "gdef"])
+                };
                 let Some(text) = b.assign(x, 0, form) else { continue };
                 src.push_str(&text);
                 ops.push(json!({"ev":"assign","key":ki + 1,"v":x,"g":form}));
             }
             src.push_str(&reads(&binds));
         }
-        let (got, outcome) = run_program(&src);
+        segs.push(src);
+        let src = segs.concat();
+        let (got, outcome) = if segs.len() == 1 { run_program(&src) } else { run_segments(&segs, &seg_fmts) };
         out.line(&json!({"ev":"reset","kinds":kinds,"program":src,"trace":t}));
         let nb = binds.len();
         if outcome != "ok" {
